@@ -1071,6 +1071,34 @@ pub fn dump_ext(seed: u64, n: usize, out: &Path) {
     }
 }
 
+/// The task in a directory written by `dump_ext` (or by hand: a_left.lp | a_left.spec, b_right.lp, and for external
+/// equivalence c.ug and optionally d.po), read with the real parsers, as the components of a model request:
+/// `(ext SPEC PROGRAM UG PO)` or `(strong LEFT RIGHT)`; `(unreadable)` if a file does not parse.
+pub fn task_sexp(dir: &Path) -> String {
+    let read = |n: &str| std::fs::read_to_string(dir.join(n)).ok();
+    let Some(right) = read("b_right.lp").and_then(|t| t.parse::<asp::Program>().ok()) else { return "(unreadable)".into() };
+    let left_prog = read("a_left.lp").map(|t| t.parse::<asp::Program>());
+    match read("c.ug") {
+        None => match left_prog {
+            Some(Ok(l)) => format!("(strong {} {})", sexp::program(&l), sexp::program(&right)),
+            _ => "(unreadable)".into(),
+        },
+        Some(ugt) => {
+            let Ok(ug) = ugt.parse::<fol::UserGuide>() else { return "(unreadable)".into() };
+            let spec_s = match (left_prog, read("a_left.spec")) {
+                (Some(Ok(l)), _) => format!("(prog {})", sexp::program(&l)),
+                (None, Some(t)) => match t.parse::<fol::Specification>() { Ok(sp) => format!("(spec {})", spec_sexp(&sp)), Err(_) => return "(unreadable)".into() },
+                _ => return "(unreadable)".into(),
+            };
+            let po = match read("d.po") {
+                Some(t) => match t.parse::<fol::Specification>() { Ok(x) => x, Err(_) => return "(unreadable)".into() },
+                None => fol::Specification::empty(),
+            };
+            format!("(ext {} {} {} {})", spec_s, sexp::program(&right), ug_sexp(&ug), spec_sexp(&po))
+        }
+    }
+}
+
 fn rename_var(f: fol::Formula, from: &str, to: &str) -> fol::Formula {
     f.substitute(fol::Variable { name: from.into(), sort: fol::Sort::General }, fol::GeneralTerm::Variable(to.into()))
 }
